@@ -88,6 +88,8 @@ class CompilerProp:
 
     def known(self, ctx):
         for e in ctx.known_entries("known") + ctx.known_entries("fixed"):
+            if "query" not in e.get("input", {}):
+                continue  # an entry of another stream of this property (it is re-examined there on every run)
             c = Case.from_json(e["input"])
             self.evaluate(ctx, [c])
             hit = self.judge(c)
